@@ -1,7 +1,7 @@
 SPECIFICATION Spec
 CONSTANTS
 NReady = 0 NGet = 1 NCons = 0 MaxObs = 2 GetFix = TRUE Variant = "rebase" Dir = TRUE
-Scripts <- ScriptsDefect Steps <- StepsSmall Horizon = 330
+Scripts <- ScriptsDefect StepSets <- StepsSmall Horizon = 200
 INVARIANT NotBad
 
 CHECK_DEADLOCK FALSE
